@@ -132,6 +132,250 @@ example : (letI := fieldNum ℚ id; (⟨⟨0, 0, 0⟩, ⟨2, 1, 1⟩⟩ : Aabb3 
   simp [Aabb3.canonicalSplit, V3.get, V3.set]; norm_num
 
 
+/-! ## `Segment::local_split_and_get_intersection` -/
+
+/-- **C17 (segment split, `Negative`)**: for a unit normal and `epsilon ≥ 0`, when the split answers `Negative` every point of
+the segment is in the negative half-space up to `epsilon + f64::EPSILON`: `n·p - bias ≤ epsilon + 2⁻⁵²`.
+(The `2⁻⁵²` is the code's `relative_eq!(n·dir, 0)` parallelism test; `epsilon` is measured *along the segment* by the code,
+which bounds the distance to the plane because `|n·dir| ≤ |dir|`.) -/
+theorem segment_split_negative (hs : LawfulSqrt sq) (s : Segment3 K) (n : V3 K) (bias eps : K) (he : 0 ≤ eps)
+    (hn : letI := fieldNum K sq; n.dot n = 1)
+    (h : letI := fieldNum K sq; (s.localSplit n bias eps).1 = .negative) :
+    letI := fieldNum K sq
+    ∀ p, s.Mem p → n.dot p - bias ≤ eps + eps52 K := by
+  letI : Num K := fieldNum K sq
+  rintro p ⟨u, hu0, hu1, rfl⟩
+  rw [sdist_on_segment sq]
+  have hcs := abs_dot_le_norm sq hs n (s.b.sub s.a) hn
+  simp only [Segment3.localSplit] at h
+  have hl : ((mkRat 1 2 : Rat) : K) = 1 / 2 := by norm_num
+  simp only [fieldNum_lit, hl] at h
+  split_ifs at h with c1 c2 c3
+  · simp only [Bool.or_eq_true, decide_eq_true_eq, relEqZero_iff] at c1
+    exact nosplit_bound _ _ _ eps (eps52 K) u hcs he eps52_pos.le hu0 hu1 c2 (by tauto)
+
+
+/-- **C17 (segment split, `Positive`)**: symmetric statement: `Positive` ⇒ `n·p - bias ≥ -(epsilon + 2⁻⁵²)` on the whole segment. -/
+theorem segment_split_positive (hs : LawfulSqrt sq) (s : Segment3 K) (n : V3 K) (bias eps : K) (he : 0 ≤ eps)
+    (hn : letI := fieldNum K sq; n.dot n = 1)
+    (h : letI := fieldNum K sq; (s.localSplit n bias eps).1 = .positive) :
+    letI := fieldNum K sq
+    ∀ p, s.Mem p → -(eps + eps52 K) ≤ n.dot p - bias := by
+  letI : Num K := fieldNum K sq
+  rintro p ⟨u, hu0, hu1, rfl⟩
+  rw [sdist_on_segment sq]
+  have hcs := abs_dot_le_norm sq hs n (s.b.sub s.a) hn
+  simp only [Segment3.localSplit] at h
+  have hl : ((mkRat 1 2 : Rat) : K) = 1 / 2 := by norm_num
+  simp only [fieldNum_lit, hl] at h
+  split_ifs at h with c1 c2 c3
+  · simp only [Bool.or_eq_true, decide_eq_true_eq, relEqZero_iff] at c1
+    push Not at c2
+    have key := nosplit_bound (-(n.dot (s.b.sub s.a))) (-(bias - n.dot s.a)) ((s.b.sub s.a).norm) eps (eps52 K) u
+      (by rw [abs_neg]; exact hcs) he eps52_pos.le hu0 hu1 (by linarith)
+      (by rw [abs_neg, neg_div_neg_eq]; tauto)
+    linarith
+
+
+/-- **C17 (segment split, `Pair`)**: when the split returns `Pair(l, r)` with intersection `(I, t)`:
+`0 < t < 1`, `I = a + t(b-a)` lies exactly on the plane, the end points are strictly on opposite sides, `l` is the piece
+`[a,I]` or `[I,b]` on the non-positive side and `r` the other one; every point of `l` has `n·p ≤ bias`, every point of `r`
+has `n·p ≥ bias` (closed half-spaces, no epsilon); the lengths add up: `|l| + |r| = |ab|`. -/
+theorem segment_split_pair (hs : LawfulSqrt sq) (s l r : Segment3 K) (n : V3 K) (bias eps : K) (he : 0 ≤ eps)
+    (oi : Option (V3 K × K))
+    (h : letI := fieldNum K sq; s.localSplit n bias eps = (.pair l r, oi)) :
+    letI := fieldNum K sq
+    ∃ I t, oi = some (I, t) ∧ 0 < t ∧ t < 1 ∧ I = s.a.add ((s.b.sub s.a).smul t) ∧ n.dot I - bias = 0 ∧
+      ((l = ⟨s.a, I⟩ ∧ r = ⟨I, s.b⟩ ∧ n.dot s.a - bias < 0 ∧ 0 < n.dot s.b - bias) ∨
+       (l = ⟨I, s.b⟩ ∧ r = ⟨s.a, I⟩ ∧ n.dot s.b - bias < 0 ∧ 0 < n.dot s.a - bias)) ∧
+      (∀ p, l.Mem p → n.dot p - bias ≤ 0) ∧ (∀ p, r.Mem p → 0 ≤ n.dot p - bias) ∧
+      (l.b.sub l.a).norm + (r.b.sub r.a).norm = (s.b.sub s.a).norm := by
+  letI : Num K := fieldNum K sq
+  simp only [Segment3.localSplit] at h
+  split_ifs at h with c1 c2 c3
+  all_goals simp only [Prod.mk.injEq, Split.pair.injEq, reduceCtorEq, false_and] at h
+  all_goals simp only [Bool.or_eq_true, decide_eq_true_eq, relEqZero_iff, not_or, not_le] at c1
+  all_goals obtain ⟨⟨cb, ct0⟩, ct1⟩ := c1
+  all_goals obtain ⟨⟨hl', hr'⟩, hoi⟩ := h
+  all_goals subst hl' hr'
+  all_goals
+    have hL0 : 0 ≤ (s.b.sub s.a).norm := by
+      simp only [V3.norm, fieldNum_sqrt]; apply hs.nonneg
+      simp only [V3.normSq, V3.dot]
+      nlinarith [mul_self_nonneg (s.b.sub s.a).x, mul_self_nonneg (s.b.sub s.a).y, mul_self_nonneg (s.b.sub s.a).z]
+  all_goals
+    have hb0 : n.dot (s.b.sub s.a) ≠ 0 := by
+      intro h0; rw [h0, abs_zero] at cb; exact absurd eps52_pos (not_lt.mpr cb.le)
+  all_goals
+    have hLpos : 0 < (s.b.sub s.a).norm := by
+      rcases eq_or_lt_of_le hL0 with h0 | h0
+      · rw [← h0, mul_zero] at ct0; linarith
+      · exact h0
+  all_goals
+    have ht0 : 0 < (bias - n.dot s.a) / n.dot (s.b.sub s.a) := by
+      by_contra hcon; push Not at hcon; nlinarith
+  all_goals
+    have ht1 : (bias - n.dot s.a) / n.dot (s.b.sub s.a) < 1 := by
+      by_contra hcon; push Not at hcon; nlinarith
+  all_goals
+    have hap : bias - n.dot s.a = (bias - n.dot s.a) / n.dot (s.b.sub s.a) * n.dot (s.b.sub s.a) := by field_simp
+  all_goals
+    have hI : n.dot (s.a.add ((s.b.sub s.a).smul ((bias - n.dot s.a) / n.dot (s.b.sub s.a)))) - bias = 0 := by
+      rw [sdist_on_segment sq]; linarith
+  all_goals obtain ⟨pn1, pn2⟩ := piece_norms sq hs s.a s.b _ ht0.le ht1.le
+  all_goals generalize htdef : (bias - n.dot s.a) / n.dot (s.b.sub s.a) = t at *
+  all_goals refine ⟨_, t, hoi.symm, ht0, ht1, rfl, hI, ?_, ?_, ?_, ?_⟩
+  -- branch `0 ≤ a`: l = [a, I], r = [I, b]
+  · have hbpos : 0 < n.dot (s.b.sub s.a) := by
+      rcases lt_or_gt_of_ne hb0 with hneg | hpos
+      · nlinarith
+      · exact hpos
+    have hsb : n.dot s.b - bias = -(bias - n.dot s.a) + n.dot (s.b.sub s.a) := by
+      simp only [V3.dot, V3.sub]; ring
+    left; refine ⟨rfl, rfl, ?_, ?_⟩
+    · nlinarith
+    · rw [hsb]; nlinarith
+  · rintro p ⟨u, hu0, hu1, rfl⟩
+    rw [sdist_on_segment sq]
+    have : n.dot ((s.a.add ((s.b.sub s.a).smul t)).sub s.a) = t * n.dot (s.b.sub s.a) := by
+      simp only [V3.dot, V3.add, V3.sub, V3.smul]; ring
+    rw [this]; nlinarith
+  · rintro p ⟨u, hu0, hu1, rfl⟩
+    have e := sdist_on_segment sq (s.a.add ((s.b.sub s.a).smul t)) s.b n bias u
+    rw [e]
+    have : n.dot (s.b.sub (s.a.add ((s.b.sub s.a).smul t))) = (1 - t) * n.dot (s.b.sub s.a) := by
+      simp only [V3.dot, V3.add, V3.sub, V3.smul]; ring
+    rw [this]
+    have hbpos : 0 < n.dot (s.b.sub s.a) := by
+      rcases lt_or_gt_of_ne hb0 with hneg | hpos
+      · nlinarith
+      · exact hpos
+    nlinarith [mul_nonneg hu0 (mul_nonneg (by linarith : (0:K) ≤ 1 - t) hbpos.le)]
+  · simp only []; rw [pn1, pn2]; ring
+  -- branch `a < 0`: l = [I, b], r = [a, I]
+  · have c2 : bias - n.dot s.a < 0 := not_le.mp ‹¬ (0 ≤ bias - n.dot s.a)›
+    have hbneg : n.dot (s.b.sub s.a) < 0 := by
+      rcases lt_or_gt_of_ne hb0 with hneg | hpos
+      · exact hneg
+      · nlinarith
+    have hsb : n.dot s.b - bias = -(bias - n.dot s.a) + n.dot (s.b.sub s.a) := by
+      simp only [V3.dot, V3.sub]; ring
+    right; refine ⟨rfl, rfl, ?_, ?_⟩
+    · rw [hsb]; nlinarith
+    · nlinarith
+  · rintro p ⟨u, hu0, hu1, rfl⟩
+    have c2 : bias - n.dot s.a < 0 := not_le.mp ‹¬ (0 ≤ bias - n.dot s.a)›
+    have e := sdist_on_segment sq (s.a.add ((s.b.sub s.a).smul t)) s.b n bias u
+    rw [e]
+    have : n.dot (s.b.sub (s.a.add ((s.b.sub s.a).smul t))) = (1 - t) * n.dot (s.b.sub s.a) := by
+      simp only [V3.dot, V3.add, V3.sub, V3.smul]; ring
+    rw [this]
+    have hbneg : n.dot (s.b.sub s.a) < 0 := by
+      rcases lt_or_gt_of_ne hb0 with hneg | hpos
+      · exact hneg
+      · nlinarith
+    nlinarith [mul_nonneg hu0 (mul_nonneg (by linarith : (0:K) ≤ 1 - t) (neg_nonneg.2 hbneg.le))]
+  · rintro p ⟨u, hu0, hu1, rfl⟩
+    have c2 : bias - n.dot s.a < 0 := not_le.mp ‹¬ (0 ≤ bias - n.dot s.a)›
+    rw [sdist_on_segment sq]
+    have : n.dot ((s.a.add ((s.b.sub s.a).smul t)).sub s.a) = t * n.dot (s.b.sub s.a) := by
+      simp only [V3.dot, V3.add, V3.sub, V3.smul]; ring
+    rw [this]; nlinarith
+  · simp only []; rw [pn1, pn2]; ring
+
+
+/-- **C17 (segment split, `Negative ⇐`)**: a segment whose two end points satisfy `n·p ≤ bias` (i.e. the whole segment lies in
+the closed negative half-space) is reported `Negative` — never `Pair`, never `Positive` (a segment lying in the plane counts as
+negative: the tie convention `>= 0.0` of the code). No hypothesis on `n`. -/
+theorem segment_split_negative_of_side (hs : LawfulSqrt sq) (s : Segment3 K) (n : V3 K) (bias eps : K) (he : 0 ≤ eps)
+    (ha : letI := fieldNum K sq; n.dot s.a - bias ≤ 0) (hb : letI := fieldNum K sq; n.dot s.b - bias ≤ 0) :
+    letI := fieldNum K sq
+    s.localSplit n bias eps = (.negative, none) := by
+  letI : Num K := fieldNum K sq
+  have hc := nosplit_of_same_side sq hs s n bias eps he (Or.inl ⟨ha, hb⟩)
+  have hl : ((mkRat 1 2 : Rat) : K) = 1 / 2 := by norm_num
+  have hd := dot_sub_eq sq s.a s.b n bias
+  simp only [Segment3.localSplit, hc, if_true, fieldNum_lit, hl]
+  rw [if_pos]
+  rw [hd]; linarith
+
+/-- **C17 (segment split, `Positive ⇐`)**: a segment whose end points satisfy `n·p ≥ bias`, not both on the plane, is reported
+`Positive` (this is the clause the pinned tree violates: `(0,0,0)-(1,0,0)` against the plane `x = 0` is reported `Negative`). -/
+theorem segment_split_positive_of_side (hs : LawfulSqrt sq) (s : Segment3 K) (n : V3 K) (bias eps : K) (he : 0 ≤ eps)
+    (ha : letI := fieldNum K sq; 0 ≤ n.dot s.a - bias) (hb : letI := fieldNum K sq; 0 ≤ n.dot s.b - bias)
+    (hne : letI := fieldNum K sq; 0 < n.dot s.a - bias ∨ 0 < n.dot s.b - bias) :
+    letI := fieldNum K sq
+    s.localSplit n bias eps = (.positive, none) := by
+  letI : Num K := fieldNum K sq
+  have hc := nosplit_of_same_side sq hs s n bias eps he (Or.inr ⟨ha, hb⟩)
+  have hl : ((mkRat 1 2 : Rat) : K) = 1 / 2 := by norm_num
+  have hd := dot_sub_eq sq s.a s.b n bias
+  simp only [Segment3.localSplit, hc, if_true, fieldNum_lit, hl]
+  rw [if_neg]
+  rw [hd]; push Not; rcases hne with h | h <;> linarith
+
+/-- **C17 (segment split, `Pair ⇐`)**: for a unit normal, if the end points are farther than `epsilon` from the plane on opposite
+sides (and the segment is not parallel to the plane up to the code's `relative_eq!` threshold: `|n·(b-a)| > 2⁻⁵²`, automatic
+when `epsilon ≥ 2⁻⁵³`), the split returns a `Pair` with an intersection point. For `epsilon = 0` the threshold matters: this is
+the input class on which `TriMesh::local_split`'s `intersect_edge` reaches `unreachable!()`. -/
+theorem segment_split_pair_of_sides (hs : LawfulSqrt sq) (s : Segment3 K) (n : V3 K) (bias eps : K) (he : 0 ≤ eps)
+    (hn : letI := fieldNum K sq; n.dot n = 1)
+    (hab : letI := fieldNum K sq; (n.dot s.a - bias < -eps ∧ eps < n.dot s.b - bias) ∨ (n.dot s.b - bias < -eps ∧ eps < n.dot s.a - bias))
+    (hpar : letI := fieldNum K sq; eps52 K < |n.dot (s.b.sub s.a)|) :
+    letI := fieldNum K sq
+    ∃ l r I t, s.localSplit n bias eps = (.pair l r, some (I, t)) := by
+  letI : Num K := fieldNum K sq
+  have hcs := abs_dot_le_norm sq hs n (s.b.sub s.a) hn
+  have hd := dot_sub_eq sq s.a s.b n bias
+  have hb0 : n.dot (s.b.sub s.a) ≠ 0 := by
+    intro h0; rw [h0, abs_zero] at hpar; exact absurd eps52_pos (not_lt.mpr hpar.le)
+  have hc : (relEqZero (n.dot (s.b.sub s.a)) || decide ((bias - n.dot s.a) / n.dot (s.b.sub s.a) * (s.b.sub s.a).norm ≤ eps) ||
+      decide ((s.b.sub s.a).norm - eps ≤ (bias - n.dot s.a) / n.dot (s.b.sub s.a) * (s.b.sub s.a).norm)) = false := by
+    rw [Bool.eq_false_iff]
+    simp only [ne_eq, Bool.or_eq_true, decide_eq_true_eq, relEqZero_iff, not_or, not_le]
+    generalize (s.b.sub s.a).norm = L at *
+    generalize hbp : n.dot (s.b.sub s.a) = bp at *
+    obtain ⟨t0, ht0⟩ : ∃ t0, t0 = (bias - n.dot s.a) / bp := ⟨_, rfl⟩
+    have hap : bias - n.dot s.a = t0 * bp := by rw [ht0]; field_simp
+    rw [← ht0]
+    rcases abs_le.mp hcs with ⟨l1, l2⟩
+    refine ⟨⟨hpar, ?_⟩, ?_⟩
+    · rcases lt_or_gt_of_ne hb0 with hneg | hpos
+      · have : t0 ≤ 0 ∨ 0 < t0 := le_or_gt t0 0
+        rcases hab with ⟨h1, h2⟩ | ⟨h1, h2⟩
+        · nlinarith
+        · have ht : 0 < t0 := by by_contra hcon; push Not at hcon; nlinarith
+          nlinarith [mul_nonneg ht.le (by linarith : (0:K) ≤ L + bp)]
+      · rcases hab with ⟨h1, h2⟩ | ⟨h1, h2⟩
+        · have ht : 0 < t0 := by by_contra hcon; push Not at hcon; nlinarith
+          nlinarith [mul_nonneg ht.le (by linarith : (0:K) ≤ L - bp)]
+        · nlinarith
+    · rcases lt_or_gt_of_ne hb0 with hneg | hpos
+      · rcases hab with ⟨h1, h2⟩ | ⟨h1, h2⟩
+        · nlinarith
+        · have ht : t0 < 1 := by by_contra hcon; push Not at hcon; nlinarith
+          nlinarith [mul_nonneg (by linarith : (0:K) ≤ 1 - t0) (by linarith : (0:K) ≤ L + bp)]
+      · rcases hab with ⟨h1, h2⟩ | ⟨h1, h2⟩
+        · have ht : t0 < 1 := by by_contra hcon; push Not at hcon; nlinarith
+          nlinarith [mul_nonneg (by linarith : (0:K) ≤ 1 - t0) (by linarith : (0:K) ≤ L - bp)]
+        · nlinarith
+  simp only [Segment3.localSplit, hc, Bool.false_eq_true, if_false]
+  split_ifs
+  · exact ⟨_, _, _, _, rfl⟩
+  · exact ⟨_, _, _, _, rfl⟩
+
+
+/-! non-vacuity (evaluated at the exact `Rat` instance, whose `sqrt` is exact on perfect squares): a 3-4-5 segment cut in the
+middle, one touching the plane at `a` with `b` on the positive side (`Positive`; the pinned tree says `Negative`), one inside
+the negative side. -/
+example : (((Segment3.mk ⟨0, 0, 0⟩ ⟨3, 4, 0⟩ : Segment3 Rat).localSplit ⟨1, 0, 0⟩ (3/2) 0).2.map fun (p, t) => (p.x, p.y, p.z, t))
+    = some (3/2, 2, 0, 1/2) := by
+  decide +kernel
+example : (match ((Segment3.mk ⟨0, 0, 0⟩ ⟨3, 4, 0⟩ : Segment3 Rat).localSplit ⟨1, 0, 0⟩ 0 0).1 with | .positive => true | _ => false) = true := by
+  decide +kernel
+example : (match ((Segment3.mk ⟨0, 0, 0⟩ ⟨3, 4, 0⟩ : Segment3 Rat).localSplit ⟨1, 0, 0⟩ 5 (1/4)).1 with | .negative => true | _ => false) = true := by
+  decide +kernel
+
 /-! ## `Aabb::difference_with_cut_sequence` -/
 
 /-- **C17 (`Aabb::difference_with_cut_sequence`)**: for every box `self` and every valid `rhs`, with `pieces` the returned
